@@ -483,12 +483,63 @@ pub fn gen_corpus(seed: u64, cfg: &CorpusCfg) -> Scenario {
 // ---------------------------------------------------------------------------------------------
 // C18: read-only handles — committed + pending state, then a read-only session
 pub fn gen_readonly(seed: u64) -> Scenario {
+    // Variants drawn from a stream of their own (the main stream's scenarios stay what they were):
+    //  - a memory whose first commit never completed (create, puts, process death): lexical index
+    //    enabled but no embedded index segments, so a read-only open rebuilds the index in memory;
+    //  - a memory left after commit_skip_indexes without finalize_indexes (same in-memory rebuild);
+    //  - a memory file larger than the 16 MiB window the read-only open scans for the last footer.
+    let mut rv = Rng::new(seed, "readonly-variant");
+    let variant = rv.below(16);
+    if variant < 3 {
+        let mut r = Rng::new(seed, "readonly-uncommitted");
+        let env = env_for(seed, &mut r);
+        let mut ops = vec![Op::Create];
+        if variant == 2 {
+            ops.push(Op::BeginBatch(BatchSpec { compression_level: 3, disable_auto_checkpoint: r.chance(1, 2), skip_sync: false, wal_pre_size: 0 }));
+        }
+        let n = r.range(1, 5);
+        for k in 0..n {
+            let kind = *r.pickv(&[PK::Text, PK::Text, PK::Bin, PK::LongText]);
+            let len = if kind == PK::LongText { r.range(2400, 4000) } else { r.range(20, 900) } as usize;
+            let mut p = PutSpec { pay: Some(Pay::new(kind, len, r.next())), ts: Some(k as i64), ..Default::default() };
+            p.uri = Some(format!("mv2://first/{k}"));
+            ops.push(Op::Put(p));
+        }
+        if variant == 2 {
+            ops.push(Op::CommitSkipIndexes);
+            ops.push(Op::EndBatch);
+        }
+        ops.push(Op::Abandon);
+        let q = SearchSpec { query: VOCAB[r.below(VOCAB.len() as u64) as usize].to_string(), top_k: 10, snippet_chars: 120, uri: None, scope: None, as_of_frame: None, as_of_ts: None, no_sketch: r.chance(1, 2) };
+        for _ in 0..r.range(1, 3) {
+            ops.push(Op::OpenRo);
+            ops.push(Op::Check);
+            ops.push(Op::Search(q.clone()));
+            ops.push(Op::Timeline(TimelineSpec { limit: None, since: None, until: None, reverse: false }));
+            if r.chance(1, 2) {
+                ops.push(Op::Verify { deep: r.chance(1, 2) });
+            }
+            ops.push(Op::Close);
+        }
+        ops.push(Op::Open);
+        ops.push(Op::Check);
+        ops.push(Op::Close);
+        return Scenario { seed, env, ops, fault: Default::default(), fault_ops: vec![], post: None, medium: None, knobs: Default::default() };
+    }
+    let big = variant == 3 && seed % 4 == 1;
     let mut r = Rng::new(seed, "readonly");
     let mut s = gen_corpus(seed, &CorpusCfg { max_docs: 12, with_vec: true, with_images: false, mutate: true });
     // cut the corpus scenario before its closing battery and append our own ending
     let cut = s.ops.iter().rposition(|o| matches!(o, Op::Check)).unwrap_or(s.ops.len());
     let bat: Vec<Op> = s.ops[..cut].iter().filter(|o| matches!(o, Op::Search(_) | Op::Timeline(_) | Op::SearchVec { .. })).take(10).cloned().collect();
     s.ops.truncate(cut);
+    if big {
+        // one incompressible payload that pushes the file beyond the 16 MiB footer-scan window
+        let mut p = PutSpec { pay: Some(Pay::new(PK::Bin, 17 * 1024 * 1024, seed ^ 0xB16)), ts: Some(-5), ..Default::default() };
+        p.uri = Some("mv2://big/0".to_string());
+        s.ops.push(Op::Put(p));
+        s.ops.push(Op::Commit);
+    }
     // leave some records pending in the log
     for k in 0..r.range(0, 3) {
         let mut p = PutSpec { pay: Some(Pay::new(PK::Text, r.range(20, 600) as usize, r.next())), ts: Some(k as i64), ..Default::default() };
@@ -573,7 +624,31 @@ pub fn gen_tickets(seed: u64, capacity_focus: bool) -> Scenario {
                     _ => seq + r.range(1, 4) as i64,
                 };
                 if capacity_focus {
-                    ops.push(Op::TicketRel { seq: sq, slack: *r.pickv(&[0u64, 1, 50, 500, 2000, 20_000]) });
+                    let slack = *r.pickv(&[0u64, 1, 50, 500, 2000, 20_000]);
+                    if r.chance(1, 3) {
+                        // a payload-less update of an early document as the last frame-producing
+                        // step before a restart: the newest frame then owns the oldest bytes
+                        ops.push(Op::Update { target: r.below(3), spec: PutSpec { title: Some(format!("retitled {k}")), ..Default::default() } });
+                        ops.push(Op::Commit);
+                        ops.push(Op::Close);
+                        ops.push(Op::Open);
+                    }
+                    ops.push(Op::TicketRel { seq: sq, slack });
+                    if r.chance(1, 2) {
+                        // aim at the boundary: a payload a little below / above what is left
+                        let kind = *r.pickv(&[PK::Bin, PK::Bin, PK::LongText, PK::Text]);
+                        let len = match kind {
+                            PK::LongText => r.range(2400, 9000),
+                            PK::Text => r.range(400, 2000),
+                            _ => if r.chance(1, 2) { slack + 70 + r.below(300) } else { slack.saturating_sub(r.below(200)).max(8) },
+                        } as usize;
+                        let mut p = PutSpec { pay: Some(Pay::new(kind, len, r.next())), ts: Some(k as i64), ..Default::default() };
+                        p.uri = Some(format!("mv2://edge/{k}"));
+                        ops.push(Op::Put(p));
+                        if r.chance(1, 2) {
+                            ops.push(Op::Commit);
+                        }
+                    }
                 } else {
                     ops.push(Op::Ticket { issuer: format!("issuer{}", r.below(3)), seq: sq, capacity: if r.chance(1, 2) { Some(r.range(100_000, 2_000_000)) } else { None } });
                 }
